@@ -115,8 +115,62 @@ class Gen:
             d = r.choice(self.dicts)
             return f"{d}[{self.cvar()}]" if r.random() < 0.5 else f"{d}.name"
         if k < 0.88:
-            return '"' + r.choice(["a", " b ", "lt;", ""]) + "${" + self.svar() + " | " + r.choice(STRUCT_F) + "}" + r.choice(["", "x"]) + '"'
+            return self.tstr()
         return "'" + r.choice(["lit", "a b", "x;"]) + "'"
+
+    def tstr(self) -> str:
+        """A template string with DATA interpolations (paths, filters inside ${})."""
+        r = self.r
+        parts = []
+        for _ in range(r.randint(1, 3)):
+            parts.append(r.choice(["row-", "a", " b ", "lt;", "", "x;"]))
+            k = r.random()
+            if k < 0.5:
+                inner = self.svar()
+            elif k < 0.65 and self.lists:
+                inner = f"{r.choice(self.lists)}[{r.choice([0, -1])}]"
+            elif k < 0.8 and self.lists:
+                inner = f"{r.choice(self.lists)} | join: {self.sarg()}"
+            elif k < 0.9 and self.dicts:
+                inner = f"{r.choice(self.dicts)}.name"
+            else:
+                inner = self.svar()
+            j = r.random()
+            if j < 0.3:
+                inner += " | " + r.choice(STRUCT_F)
+            elif j < 0.45:
+                inner += f" | append: {self.sarg()}"
+            elif j < 0.55:
+                inner += f" | default: {self.sarg()} | " + r.choice(STRUCT_F)
+            parts.append("${" + inner + "}")
+        parts.append(r.choice(["", "-z", " b"]))
+        return '"' + "".join(parts) + '"'
+
+    def witem(self) -> str:
+        """An item for a tag that WRITES a primitive expression (cycle): template
+        strings with interpolated data, variables, paths, literals, numbers."""
+        r = self.r
+        k = r.random()
+        if k < 0.40:
+            return self.tstr()
+        if k < 0.65:
+            return self.svar()
+        if k < 0.75 and self.lists:
+            return f"{r.choice(self.lists)}[{r.choice([0, 1, -1])}]"
+        if k < 0.82 and self.dicts:
+            d = r.choice(self.dicts)
+            return f"{d}[{self.cvar()}]" if r.random() < 0.5 else f"{d}.name"
+        if k < 0.92:
+            return "'" + r.choice(["alt", "a b", "x;", ""]) + "'"
+        return r.choice(["7", "nil", "true", "(1..3)"])
+
+    def cycle_tag(self, n_items: int | None = None) -> str:
+        r = self.r
+        n = n_items or r.choice([1, 2, 2, 3, 4])
+        items = ", ".join(self.witem() for _ in range(n))
+        name = r.choice(["", "", "", "g1: ", "'g 2': "])
+        tag = "{% cycle " + name + items + " %}"
+        return tag * r.choice([1, 1, 2, 3])     # the same tag again advances to the next item
 
     def stmt(self, depth: int) -> str:
         r = self.r
@@ -126,7 +180,8 @@ class Gen:
         if k < 0.22:
             return "{{ " + self.sexpr() + " }}"
         if k < 0.27:
-            return "{% echo " + self.sexpr(1) + " %}"
+            return "{% echo " + (self.tstr() + (" | " + self.r.choice(STRUCT_F) if self.r.random() < 0.3 else "")
+                                 if self.r.random() < 0.4 else self.sexpr()) + " %}"
         if k < 0.33:
             v = self.fresh()
             self.last_nested = False
@@ -154,7 +209,7 @@ class Gen:
             self.scope_strs.append(x)
             body = self.block(depth + 1)
             if r.random() < 0.4:
-                body += "{% cycle " + self.svar() + ", " + self.svar() + " %}"
+                body += self.cycle_tag()
             if r.random() < 0.3:
                 body += "{{ forloop.index }}"
             self.scope_strs.remove(x)
@@ -215,7 +270,8 @@ class Gen:
             v = self.fresh()
             first = "echo " + self.sexpr(1)
             self.last_nested = False
-            lines = [first, "assign " + v + " = " + self.sexpr(1), "echo " + v,
+            lines = [first, "echo " + self.tstr(), "cycle " + self.witem() + ", " + self.witem(),
+                     "assign " + v + " = " + self.sexpr(1), "echo " + v,
                      "if " + self.cvar(), "echo " + self.svar() + " | upcase", "endif"]
             if not self.last_nested:
                 self.scope_strs.append(v)
@@ -235,7 +291,7 @@ class Gen:
         if k < 0.2:
             return "{% " + r.choice(["increment", "decrement"]) + " " + r.choice(["n1", "n2"]) + " %}"
         if k < 0.4:
-            return "{% cycle " + self.svar() + ", " + self.svar() + ", 'x' %}"
+            return self.cycle_tag()
         if k < 0.65:
             x = self.fresh("ch")
             self.scope_strs.append(x)
@@ -374,6 +430,18 @@ FIXED: list[tuple[dict[str, str], dict[str, Any]]] = [
     ({"main": "{% extends 'base' %}{% block b %}[{{ block.super }}|{% echo block.super %}]{% echo s %}{% endblock %}",
       "base": "B{% block b %}base {% echo s %}{% cycle s %}{% endblock %}E"}, {"s": "<a&'\">"}),
     ({"main": "{% echo \"a ${s} b\" %}{% assign v = \"x${s}\" %}{% echo v %}{% with a: s %}{% echo a %}{% endwith %}"}, {"s": "<a&'\">"}),
+    # items of a writing tag that are not plain paths: template strings with interpolated data, mixed lists
+    ({"main": "{% for x in l %}<{% cycle \"row-${cls}\", 'alt' %}>{% endfor %}".replace("<", "[").replace(">", "]")},
+     {"cls": "\"><script>", "l": [1, 2, 3]}),
+    ({"main": "{% cycle \"row-${s}\", \"alt-${s | upcase}-${l | join: s}\" %}{% cycle \"row-${s}\", \"alt-${s | upcase}-${l | join: s}\" %}"},
+     {"s": "<a&'\">", "l": ["<", "&"]}),
+    ({"main": "{% for x in l %}{% cycle g: x, \"t-${x}\", 'lit', 7, s, d.name, \"${d.name | append: x}\" %}{% endfor %}"},
+     {"s": "<a&'\">", "l": ["<", "&", "'", "\"", ">", "a", "<b>"], "d": {"name": "<n>"}}),
+    ({"main": "{% liquid\n  cycle \"a${s}\", s\n  cycle \"a${s}\", s\n  echo \"e${s | downcase}\"\n%}{% capture c %}{% cycle \"c${s}\" %}{% endcapture %}{{ c }}"},
+     {"s": "<a&'\">"}),
+    ({"main": "{% render 'p', x: \"r${s}\" %}{% include 'p' with \"i${s}\" as x %}{% macro m, a %}{% cycle \"m${a}\", a %}{% endmacro %}{% call m, \"k${s}\" %}"
+              "{% with w: \"w${s}\" %}{% cycle w, \"z${w}\" %}{% endwith %}{% translate you: \"t${s}\" %}Hi {{ you }}{% endtranslate %}",
+      "p": "[{% cycle x, \"p${x}\" %}{% cycle x, \"p${x}\" %}]"}, {"s": "<a&'\">"}),
 ]
 
 
